@@ -1869,6 +1869,10 @@ def main():
         print(open(os.path.join(sys.argv[3], 'violation.json')).read()); return 0
     if pid not in CHECKS:
         print('unknown property', pid); return 2
+    # every check builds into a directory of its own, so that checks may run side by side
+    global BUILD
+    BUILD = os.path.join(BUILD, pid + ('' if tier == 'quick' else '_' + tier))
+    os.makedirs(BUILD, exist_ok=True)
     ctx = Ctx(pid, tier, seed)
     try:
         CHECKS[pid](ctx)
